@@ -123,6 +123,15 @@ def ob_fault_history(ex, kinds, U=2, HU=2, faults=1):
                     what = ("live-dangling", "after the history a key of the live index points to a missing blob")
                 else:
                     recs = records_written(f)
+                    # the log stays well-formed under a contained fault too: record versions strictly increase (C20)
+                    vers = [v for (v, _op) in recs if v is not None]
+                    reuse = z3.Or([vers[i] >= vers[i + 1] for i in range(len(vers) - 1)]) if len(vers) > 1 else z3.BoolVal(False)
+                    nq += 1
+                    if len(vers) > 1 and ex.feasible(f.pc, reuse):
+                        f.pc.append(reuse)
+                        what = ("version-reused", "two records that reached the log carry versions that are not strictly increasing "
+                                                   "(a version is used twice after a failed append)")
+                if what is None and f.status not in ("panic", "deadlock"):
                     rpk, rhk = recovered_index(w, pre, recs)
                     rec_bad = z3.Or([z3.And(rpk[i], z3.Not(z3.Select(blobs, rhk[i]))) for i in range(w.U)])
                     nq += 1
